@@ -81,6 +81,22 @@ pub fn read_slp(data: &[u8], ss: &StreamSpec, edges: &[usize], opts: OptsSpec) -
     }
 }
 
+/// Read a replay that is `head ++ count x [code][65535 zeros] ++ tail` (see SparseStream).
+pub fn read_slp_sparse(head: &[u8], tail: &[u8], count: u64, code: u8, chunk: usize, opts: OptsSpec) -> (Res<Game>, u64, u64) {
+    let mut stream = crate::simio::SparseStream::new(head, tail, count, code, chunk);
+    let o = slp_opts(opts);
+    let r = guarded(|| peppi::io::slippi::read(&mut stream, Some(&o)));
+    let res = match r {
+        Ok(Ok(g)) => Res::Ok(g),
+        Ok(Err(e)) => {
+            let (s, k) = map_err(e);
+            Res::Err(s, k)
+        }
+        Err(c) => Res::Caught(c),
+    };
+    (res, stream.reads, stream.seeks)
+}
+
 /// Same, with `None` options (the default-option code path).
 pub fn read_slp_noopts(data: &[u8], ss: &StreamSpec, edges: &[usize]) -> ReadOut {
     let mut stream = SimStream::new(data, ss, edges);
